@@ -16,6 +16,8 @@
 (*           length field byte by byte, take the data; a script that ends     *)
 (*           inside the length field or inside the data is MALFORMED.         *)
 (* MINIMAL   Core's CheckMinimalPush, the rule MINIMALDATA enforces.          *)
+(* REPORT    what fetching an instruction reports (Fetch): malformed before   *)
+(*           anything else, then - for complete pushes only - minimality.     *)
 (*                                                                            *)
 (* Byte strings are RUN-LENGTH sequences <<[n |-> count, b |-> byte], ...>>   *)
 (* in canonical form (counts >= 1, neighbouring runs differ), so a 70,000     *)
@@ -166,6 +168,29 @@ PushedValue(st) == IF st.op <= OP_PUSHDATA4 THEN st.data
 \* MINIMALDATA on a decoded instruction (Appendix A 2e)
 MinimalOK(st) == st.op > OP_PUSHDATA4 \/ CheckMinimalPush(st.data, st.op)
 
+(* FETCH, THEN JUDGE.  interpreter.cpp EvalScript, per instruction:           *)
+(*     if (!script.GetOp(pc, opcode, vchPushValue))                           *)
+(*         return set_error(serror, SCRIPT_ERR_BAD_OPCODE);                   *)
+(*     ...                                                                    *)
+(*     if (fRequireMinimal && !CheckMinimalPush(vchPushValue, opcode))        *)
+(*         return set_error(serror, SCRIPT_ERR_MINIMALDATA);                  *)
+(* The minimal-push rule is asked about pushes that were FETCHED.  What the   *)
+(* decoder reports for the instruction it stopped on (st final, not "end"),   *)
+(* with MINIMALDATA required or not:                                          *)
+(*   "malformed"   the instruction is cut short - whatever length it          *)
+(*                 announces and whatever the flag                            *)
+(*   "nonminimal"  complete, flag set, CheckMinimalPush refuses it            *)
+(*   "ok"          complete and (flag clear or minimal)                       *)
+Fetch(st, minflag) == IF st.ph = "bad" THEN "malformed"
+                      ELSE IF minflag /\ ~MinimalOK(st) THEN "nonminimal"
+                      ELSE "ok"
+\* a whole script, instruction after instruction: the first report that is not "ok" decides
+RECURSIVE FirstReport(_, _, _)
+FirstReport(p, i, minflag) == IF i > Len(p) THEN "ok"
+                              ELSE IF Fetch(p[i], minflag) # "ok" THEN Fetch(p[i], minflag)
+                              ELSE FirstReport(p, i + 1, minflag)
+ScriptReport(s, minflag) == FirstReport(Parse(s, 0), 1, minflag)
+
 -----------------------------------------------------------------------------
 (* The same well-formedness said without a cursor: the instruction at pc is  *)
 (* complete iff its header and the announced data lie inside the script.     *)
@@ -203,4 +228,11 @@ LemmaReadBack(d, op) ==
 \* every proper, non-empty prefix of an encoded push is malformed
 LemmaPrefix(d, k) ==
   (0 < k /\ k < RLen(EncodePush(d))) => DecodeAt(RTake(EncodePush(d), k), 0).ph = "bad"
+\* and so is every proper, non-empty prefix of ANY candidate that pushes d, minimal or not, under either flag:
+\* the length it announces plays no part in the report
+LemmaCut(d, op, k) ==
+  (CanPush(op, d) /\ 0 < k /\ k < RLen(EncWith(op, d))) =>
+     LET r == DecodeAt(RTake(EncWith(op, d), k), 0) IN
+     /\ r.ph = "bad" /\ r.at = 0
+     /\ Fetch(r, FALSE) = "malformed" /\ Fetch(r, TRUE) = "malformed"
 =============================================================================
